@@ -640,8 +640,13 @@ def _cg(plan, ctx):
             _call('cg', 'run', lambda: inst.run(
                 st, N, lambda x: seq.append(energy(x))))
         except Violation as v:
+            lvl = seq[0]
+            if plan.get('near'):
+                # a start next to the solution: rounding level is relative
+                # to |x*|, not to the (already tiny) start error
+                lvl += float(np.sum(w * xs * (Bm @ xs)))
             if '/raise/' in v.fingerprint and len(seq) > 1 and \
-                    seq[-1] <= 1e-24 * cond ** 2 * seq[0]:
+                    seq[-1] <= 1e-24 * cond ** 2 * lvl:
                 # 0/0 breakdown after convergence to rounding level
                 ctx.probe('breakdown-after-convergence:cg')
             else:
